@@ -137,26 +137,12 @@ func addSyncIntrinsics(m map[string]intrinsicFn) {
 		return nil
 	}
 
+	// sync.Once: the real body is executed from SSA (its state lives in the struct, so
+	// `once = sync.Once{}` re-arms it as in Go); only a scheduling point is added in front.
 	m["(*sync.Once).Do"] = func(fr *frame, a []value) value {
 		r := fr.r
-		p := a[0].(*value)
 		r.yield()
-		os := r.onces[p]
-		if os == nil {
-			os = &onceState{}
-			r.onces[p] = os
-		}
-		if os.done {
-			return nil
-		}
-		if os.inProgress {
-			r.blockUntil("Once.Do", func() bool { return os.done })
-			return nil
-		}
-		os.inProgress = true
-		defer func() { os.done = true }()
-		r.call(fr, token.NoPos, a[1], nil)
-		return nil
+		return r.callSSAx(fr.caller, fr.callpos, fr.fn, a, nil, true)
 	}
 
 	wg := func(r *run, p *value) *int64 {
